@@ -840,3 +840,194 @@ Proof.
   split; [apply fragment_html; assumption|]. split; [apply fragment_html; assumption|]. split; [apply reflow_same_html; exact Hw|].
   unfold out, t'. rewrite (R (reflow L t) Hw'), (reflow_idempotent_tree L t Hw). reflexivity.
 Qed.
+
+(* ---- clause 3: a line longer than the limit has no breakable space after its container prefix ---- *)
+Lemma fill_struct_fits lim : forall ws cur, Forall (fun w : str => w <> [] /\ is_nl w = false) ws -> Forall (fun w : str => w <> []) cur ->
+  (cur = [] \/ len (join SP cur) <= lim \/ exists w, cur = [w]) ->
+  Forall (fun g => len (join SP g) <= lim \/ exists w, g = [w]) (fill_struct lim cur ws).
+Proof.
+  induction ws as [|w r IH]; intros cur Hws Hcur Hfit; cbn [fill_struct].
+  - rewrite (nonempty_join cur Hcur). destruct cur as [|c0 cr]; [constructor|]. constructor; [|constructor].
+    destruct Hfit as [E|[E|E]]; [discriminate|left; exact E|right; exact E].
+  - inversion Hws as [|? ? [Hwn Hnl] Hr]; subst. rewrite Hnl. rewrite (nonempty_join cur Hcur).
+    destruct cur as [|c0 cr].
+    + cbn [negb]. apply IH; [exact Hr|constructor; [exact Hwn|constructor]|right; right; exists w; reflexivity].
+    + cbn [negb]. destruct (len (join SP ((c0 :: cr) ++ [w])) <=? lim) eqn:E.
+      * apply IH; [exact Hr|apply Forall_app; split; [exact Hcur|constructor; [exact Hwn|constructor]]|right; left; apply Z.leb_le; exact E].
+      * constructor; [destruct Hfit as [E0|[E0|E0]]; [discriminate|left; exact E0|right; exact E0]|].
+        apply IH; [exact Hr|constructor; [exact Hwn|constructor]|right; right; exists w; reflexivity].
+Qed.
+
+(* the paragraph lines of a tree with the width of the container prefix in front of each *)
+Fixpoint pw_lines (W : Z) (t : wtree) : list (Z * list str) :=
+  match t with
+  | WPara gs => map (fun g => (W, g)) gs
+  | WQuote ts => flat_map (pw_lines (W + 2)) ts
+  | WItem mk pad ts => flat_map (pw_lines (W + mwidth mk pad)) ts
+  | WMore mk pad ts bl next => flat_map (pw_lines (W + mwidth mk pad)) ts ++ pw_lines W next
+  | _ => []
+  end.
+
+Definition fits_or_single (L : Z) (x : Z * list str) : Prop := fst x + len (join SP (snd x)) <= L \/ exists w, snd x = [w].
+
+Lemma reflow_fits_all : forall f t L W, (wdepth t <= f)%nat -> wwf t = true -> Forall (fits_or_single (L + W)) (pw_lines W (reflow L t)).
+Proof.
+  assert (Para : forall gs L W, words_okb gs = true -> Forall (fits_or_single (L + W)) (pw_lines W (reflow L (WPara gs)))).
+  { intros gs L W H. cbn [reflow pw_lines]. destruct (words_okb_spec gs H) as [Hne HF]. destruct (concat_words gs Hne HF) as [_ Cok].
+    assert (Hr : Forall (fun w : str => w <> [] /\ is_nl w = false) (concat gs)).
+    { apply Forall_forall. intros w Hw. rewrite Forall_forall in Cok. apply word_not_nl. apply Cok. exact Hw. }
+    pose proof (fill_struct_fits L (concat gs) [] Hr ltac:(constructor) (or_introl eq_refl)) as F.
+    apply Forall_forall. intros x Hx. apply in_map_iff in Hx as (g & <- & Hg). rewrite Forall_forall in F. unfold fits_or_single. cbn [fst snd].
+    destruct (F g Hg) as [E|E]; [left; lia|right; exact E]. }
+  assert (Kids : forall f, (forall t L W, (wdepth t <= f)%nat -> wwf t = true -> Forall (fits_or_single (L + W)) (pw_lines W (reflow L t))) ->
+                 forall ts L W n, (S (fold_right (fun t m => Nat.max (wdepth t) m) 0%nat ts) <= S n)%nat -> (n <= f)%nat -> forallb wwf ts = true ->
+                 Forall (fits_or_single (L + W)) (flat_map (pw_lines W) (map (reflow L) ts))).
+  { intros f IH ts L W n Hd Hn Hall. apply Forall_forall. intros x Hx. apply in_flat_map in Hx as (t' & Ht' & Hx). apply in_map_iff in Ht' as (t & <- & Ht).
+    rewrite forallb_forall in Hall. pose proof (IH t L W ltac:(pose proof (wdepth_children t ts n Ht Hd); lia) (Hall t Ht)) as F. rewrite Forall_forall in F. apply F. exact Hx. }
+  induction f as [|f IH].
+  - intros t L W Hd Hw. destruct t as [gs|ch n content|lv c body|c n|ts|mk pad ts|mk pad ts bl next]; try (cbn [wdepth] in Hd; lia); try constructor. apply Para. exact Hw.
+  - intros t. induction t as [gs|ch n content|lv c body|c n|ts|mk pad ts|mk pad ts bl next IHn]; intros L W Hd Hw; try constructor.
+    + apply Para. exact Hw.
+    + cbn [wwf] in Hw. apply andb_true_iff in Hw as [_ Hall]. cbn [wdepth] in Hd. cbn [reflow pw_lines].
+      pose proof (Kids f IH ts (L - 2) (W + 2) f Hd (le_n _) Hall) as K. replace (L - 2 + (W + 2)) with (L + W) in K by lia. exact K.
+    + cbn [wwf] in Hw. repeat rewrite andb_true_iff in Hw. destruct Hw as [[[[[_ _] _] _] Hall] _]. cbn [wdepth] in Hd. cbn [reflow pw_lines].
+      pose proof (Kids f IH ts (L - mwidth mk pad) (W + mwidth mk pad) f Hd (le_n _) Hall) as K. replace (L - mwidth mk pad + (W + mwidth mk pad)) with (L + W) in K by lia. exact K.
+    + cbn [wwf] in Hw. repeat rewrite andb_true_iff in Hw. destruct Hw as [[[[[[[[_ _] _] _] Hall] _] _] _] Hwn]. cbn [wdepth] in Hd. cbn [reflow pw_lines].
+      assert (Hd' : (S (fold_right (fun t m => Nat.max (wdepth t) m) 0%nat ts) <= S f)%nat) by lia.
+      pose proof (Kids f IH ts (L - mwidth mk pad) (W + mwidth mk pad) f Hd' (le_n _) Hall) as K. replace (L - mwidth mk pad + (W + mwidth mk pad)) with (L + W) in K by lia.
+      apply Forall_app. split; [exact K|apply (IHn L W ltac:(lia) Hwn)].
+Qed.
+
+Theorem reflow_fits L t : wwf t = true -> Forall (fits_or_single L) (pw_lines 0 (reflow L t)).
+Proof. intros H. pose proof (reflow_fits_all (wdepth t) t L 0 (le_n _) H) as F. rewrite Z.add_0_r in F. exact F. Qed.
+
+(* ... and those are lines of the text: each paragraph line stands in the spelled tree behind a prefix of exactly that width *)
+Lemma pw_shift : forall f t W, (wdepth t <= f)%nat -> pw_lines W t = map (fun x => (fst x + W, snd x)) (pw_lines 0 t).
+Proof.
+  assert (Kids : forall f, (forall t W, (wdepth t <= f)%nat -> pw_lines W t = map (fun x => (fst x + W, snd x)) (pw_lines 0 t)) ->
+                 forall ts W V n, (S (fold_right (fun t m => Nat.max (wdepth t) m) 0%nat ts) <= S n)%nat -> (n <= f)%nat ->
+                 flat_map (pw_lines (W + V)) ts = map (fun x => (fst x + W, snd x)) (flat_map (pw_lines (0 + V)) ts)).
+  { intros f IH ts W V n Hd Hn. induction ts as [|t r IHr]; [reflexivity|]. cbn [flat_map]. rewrite map_app. f_equal.
+    - assert (Ht : (wdepth t <= f)%nat) by (pose proof (wdepth_children t (t :: r) n (or_introl eq_refl) Hd); lia).
+      rewrite (IH t (W + V) Ht), (IH t (0 + V) Ht), map_map. apply map_ext. intros [w g]. cbn [fst snd]. f_equal. lia.
+    - apply IHr. cbn [fold_right] in Hd. lia. }
+  induction f as [|f IH].
+  - intros t W Hd. destruct t as [gs|ch n content|lv c body|c n|ts|mk pad ts|mk pad ts bl next]; try (cbn [wdepth] in Hd; lia); try reflexivity.
+    cbn [pw_lines]. rewrite map_map. apply map_ext. intros g. cbn [fst snd]. reflexivity.
+  - intros t. induction t as [gs|ch n content|lv c body|c n|ts|mk pad ts|mk pad ts bl next IHn]; intros W Hd; try reflexivity.
+    + cbn [pw_lines]. rewrite map_map. apply map_ext. intros g. cbn [fst snd]. reflexivity.
+    + cbn [wdepth] in Hd. cbn [pw_lines]. apply (Kids f IH ts W 2 f Hd (le_n _)).
+    + cbn [wdepth] in Hd. cbn [pw_lines]. apply (Kids f IH ts W (mwidth mk pad) f Hd (le_n _)).
+    + cbn [wdepth] in Hd. cbn [pw_lines]. rewrite map_app. f_equal; [apply (Kids f IH ts W (mwidth mk pad) f ltac:(lia) (le_n _))|apply IHn; lia].
+Qed.
+
+Definition in_text (ls : list sline) (x : Z * list str) : Prop := exists p, len p = fst x /\ In (p ++ join SP (snd x)) (map bare ls).
+
+Lemma in_text_quote ls x : snd x <> [] -> Forall (fun w : str => w <> []) (snd x) -> in_text ls x -> in_text (map quote_s ls) (fst x + 2, snd x).
+Proof.
+  intros Hne Hw (p & Hp & Hin). apply in_map_iff in Hin as (l & El & Hl). exists ([62; 32] ++ p). split; [unfold len in *; cbn [app length fst] in *; lia|].
+  apply in_map_iff. exists (quote_s l). split; [|apply in_map; exact Hl].
+  destruct l as [|k c body].
+  - cbn [bare] in El. exfalso. destruct p; [|discriminate]. cbn [app] in El. destruct (snd x) as [|w r]; [contradiction|]. inversion Hw; subst.
+    pose proof (join_sp_nonempty w r ltac:(assumption)) as J. rewrite <- El in J. contradiction.
+  - cbn [quote_s bare repeat app snd]. cbn [bare] in El. rewrite El. reflexivity.
+Qed.
+
+Lemma in_text_join t ts x : In t ts -> in_text (spell t) x -> in_text (join_blank (map spell ts)) x.
+Proof.
+  intros Ht (p & Hp & Hin). exists p. split; [exact Hp|]. apply in_map_iff in Hin as (l & El & Hl). apply in_map_iff. exists l. split; [exact El|].
+  clear -Ht Hl. induction ts as [|y r IH]; [contradiction|]. destruct r as [|y2 r'].
+  - destruct Ht as [->|[]]. unfold join_blank. cbn [map flat_map]. rewrite app_nil_r. exact Hl.
+  - change (join_blank (map spell (y :: y2 :: r'))) with (spell y ++ SBlank :: join_blank (map spell (y2 :: r'))). destruct Ht as [->|Ht]; [apply in_or_app; left; exact Hl|].
+    apply in_or_app. right. right. apply IH. exact Ht.
+Qed.
+
+Lemma in_text_item mk pad inner x : marker_ok mk -> good_b inner = true -> snd x <> [] -> Forall (fun w : str => w <> []) (snd x) ->
+  in_text inner x -> in_text (item_lines mk pad inner) (fst x + mwidth mk pad, snd x).
+Proof.
+  intros Hmk Hg Hne Hw (p & Hp & Hin). destruct (good_elim inner Hg) as (c0 & body0 & rest & -> & _).
+  destruct (marker_first mk Hmk) as (m0 & mr & Em & _). unfold item_lines. rewrite Em.
+  assert (Jne : join SP (snd x) <> []) by (destruct (snd x) as [|w r]; [contradiction|]; inversion Hw; subst; apply join_sp_nonempty; assumption).
+  apply in_map_iff in Hin as (l & El & Hl). destruct Hl as [<-|Hl].
+  - exists ((m0 :: mr ++ repeat 32 pad) ++ p). split.
+    + unfold len, mwidth in *. rewrite Em. rewrite !app_length. cbn [length fst]. rewrite app_length, repeat_length. lia.
+    + left. cbn [bare repeat app]. cbn [bare repeat app] in El. rewrite <- app_assoc. cbn [app]. f_equal. rewrite <- app_assoc. f_equal. f_equal. exact El.
+  - exists (repeat 32 (length (m0 :: mr) + pad) ++ p). split.
+    + unfold len, mwidth in *. rewrite Em, app_length, repeat_length. cbn [fst]. lia.
+    + right. apply in_map_iff. exists (embed_s (length (m0 :: mr) + pad) l). split; [|apply in_map; exact Hl].
+      destruct l as [|k c body]; [cbn [bare] in El; exfalso; destruct p; [cbn [app] in El; rewrite <- El in Jne; contradiction|discriminate]|].
+      cbn [embed_s bare]. cbn [bare] in El. rewrite repeat_app, <- !app_assoc. f_equal. exact El.
+Qed.
+
+Lemma pw_words : forall f t x, (wdepth t <= f)%nat -> wwf t = true -> In x (pw_lines 0 t) -> snd x <> [] /\ Forall (fun w : str => w <> []) (snd x).
+Proof.
+  assert (Para : forall gs x, words_okb gs = true -> In x (pw_lines 0 (WPara gs)) -> snd x <> [] /\ Forall (fun w : str => w <> []) (snd x)).
+  { intros gs x H Hx. cbn [pw_lines] in Hx. apply in_map_iff in Hx as (g & <- & Hg). cbn [snd]. destruct (words_okb_spec gs H) as [_ F]. rewrite Forall_forall in F.
+    destruct (F g Hg) as [A B]. split; [exact A|apply words_nonempty; exact B]. }
+  induction f as [|f IH].
+  - intros t x Hd Hw Hx. destruct t as [gs|ch n content|lv c body|c n|ts|mk pad ts|mk pad ts bl next]; try (cbn [wdepth] in Hd; lia); try contradiction. apply (Para gs x Hw Hx).
+  - intros t. induction t as [gs|ch n content|lv c body|c n|ts|mk pad ts|mk pad ts bl next IHn]; intros x Hd Hw Hx; try contradiction.
+    + apply (Para gs x Hw Hx).
+    + cbn [wwf] in Hw. apply andb_true_iff in Hw as [_ Hall]. cbn [wdepth] in Hd. cbn [pw_lines] in Hx. apply in_flat_map in Hx as (t & Ht & Hx).
+      rewrite forallb_forall in Hall. rewrite (pw_shift f t (0 + 2)) in Hx by (pose proof (wdepth_children t ts f Ht Hd); lia). apply in_map_iff in Hx as (y & <- & Hy). cbn [snd].
+      apply (IH t y); [pose proof (wdepth_children t ts f Ht Hd); lia|apply Hall; exact Ht|exact Hy].
+    + cbn [wwf] in Hw. repeat rewrite andb_true_iff in Hw. destruct Hw as [[[[[_ _] _] _] Hall] _]. cbn [wdepth] in Hd. cbn [pw_lines] in Hx. apply in_flat_map in Hx as (t & Ht & Hx).
+      rewrite forallb_forall in Hall. rewrite (pw_shift f t (0 + mwidth mk pad)) in Hx by (pose proof (wdepth_children t ts f Ht Hd); lia). apply in_map_iff in Hx as (y & <- & Hy). cbn [snd].
+      apply (IH t y); [pose proof (wdepth_children t ts f Ht Hd); lia|apply Hall; exact Ht|exact Hy].
+    + cbn [wwf] in Hw. repeat rewrite andb_true_iff in Hw. destruct Hw as [[[[[[[[_ _] _] _] Hall] _] _] _] Hwn]. cbn [wdepth] in Hd. cbn [pw_lines] in Hx. apply in_app_or in Hx as [Hx|Hx].
+      * apply in_flat_map in Hx as (t & Ht & Hx). assert (Hdt : (wdepth t <= f)%nat) by (pose proof (wdepth_children t ts f Ht ltac:(lia)); lia).
+        rewrite forallb_forall in Hall. rewrite (pw_shift f t (0 + mwidth mk pad) Hdt) in Hx. apply in_map_iff in Hx as (y & <- & Hy). cbn [snd].
+        apply (IH t y Hdt (Hall t Ht) Hy).
+      * apply (IHn x ltac:(lia) Hwn Hx).
+Qed.
+
+Lemma in_text_app_l a b x : in_text a x -> in_text (a ++ b) x.
+Proof. intros (p & Hp & Hin). exists p. split; [exact Hp|]. rewrite map_app. apply in_or_app. left. exact Hin. Qed.
+Lemma in_text_app_r a b x : in_text b x -> in_text (a ++ b) x.
+Proof. intros (p & Hp & Hin). exists p. split; [exact Hp|]. rewrite map_app. apply in_or_app. right. exact Hin. Qed.
+
+Lemma pw_in_text_all : forall f t, (wdepth t <= f)%nat -> wwf t = true -> Forall (in_text (spell (to_f t))) (pw_lines 0 t).
+Proof.
+  assert (Para : forall gs, words_okb gs = true -> Forall (in_text (spell (to_f (WPara gs)))) (pw_lines 0 (WPara gs))).
+  { intros gs H. apply Forall_forall. intros x Hx. cbn [pw_lines] in Hx. apply in_map_iff in Hx as (g & <- & Hg). exists []. split; [reflexivity|].
+    cbn [to_f fst snd app]. rewrite (para_lines_bare gs H). apply in_map. exact Hg. }
+  assert (Kid : forall f, (forall t, (wdepth t <= f)%nat -> wwf t = true -> Forall (in_text (spell (to_f t))) (pw_lines 0 t)) ->
+                forall ts V x n, (S (fold_right (fun t m => Nat.max (wdepth t) m) 0%nat ts) <= S n)%nat -> (n <= f)%nat -> forallb wwf ts = true ->
+                In x (flat_map (pw_lines (0 + V)) ts) ->
+                exists y, x = (fst y + V, snd y) /\ snd y <> [] /\ Forall (fun w : str => w <> []) (snd y) /\ in_text (join_blank (map spell (map to_f ts))) y).
+  { intros f IH ts V x n Hd Hn Hall Hx. apply in_flat_map in Hx as (t & Ht & Hx). rewrite forallb_forall in Hall.
+    assert (Hdt : (wdepth t <= f)%nat) by (pose proof (wdepth_children t ts n Ht Hd); lia).
+    rewrite (pw_shift f t (0 + V) Hdt) in Hx. apply in_map_iff in Hx as (y & <- & Hy). exists y. split; [f_equal|].
+    destruct (pw_words f t y Hdt (Hall t Ht) Hy) as [A B]. split; [exact A|]. split; [exact B|].
+    pose proof (IH t Hdt (Hall t Ht)) as F. rewrite Forall_forall in F. apply (in_text_join (to_f t) (map to_f ts)); [apply in_map; exact Ht|apply F; exact Hy]. }
+  induction f as [|f IH].
+  - intros t Hd Hw. destruct t as [gs|ch n content|lv c body|c n|ts|mk pad ts|mk pad ts bl next]; try (cbn [wdepth] in Hd; lia); try constructor. apply Para. exact Hw.
+  - intros t. induction t as [gs|ch n content|lv c body|c n|ts|mk pad ts|mk pad ts bl next IHn]; intros Hd Hw; try constructor.
+    + apply Para. exact Hw.
+    + cbn [wwf] in Hw. apply andb_true_iff in Hw as [_ Hall]. cbn [wdepth] in Hd. apply Forall_forall. intros x Hx. cbn [pw_lines] in Hx.
+      destruct (Kid f IH ts 2 x f Hd (le_n _) Hall Hx) as (y & -> & A & B & T). cbn [to_f spell]. apply in_text_quote; assumption.
+    + pose proof Hw as Hw0. cbn [wwf] in Hw. repeat rewrite andb_true_iff in Hw. destruct Hw as [[[[[Hmk _] _] Hs] Hall] _]. cbn [wdepth] in Hd.
+      apply Forall_forall. intros x Hx. cbn [pw_lines] in Hx.
+      destruct (Kid f IH ts (mwidth mk pad) x f Hd (le_n _) Hall Hx) as (y & -> & A & B & T). cbn [to_f spell].
+      assert (Hch : Forall Wok ts) by (apply Forall_forall; intros t Ht; rewrite forallb_forall in Hall; apply (wok_all (wdepth t) t (le_n _) (Hall t Ht))).
+      destruct (children_ok ts Hs Hch) as (_ & _ & S3 & _).
+      apply in_text_item; [apply marker_ok_reflect; exact Hmk|exact S3|exact A|exact B|exact T].
+    + cbn [wwf] in Hw. repeat rewrite andb_true_iff in Hw. destruct Hw as [[[[[[[[Hmk _] _] Hs] Hall] _] _] _] Hwn]. cbn [wdepth] in Hd.
+      apply Forall_forall. intros x Hx. cbn [pw_lines] in Hx. cbn [to_f spell]. apply in_app_or in Hx as [Hx|Hx].
+      * destruct (Kid f IH ts (mwidth mk pad) x f ltac:(lia) (le_n _) Hall Hx) as (y & -> & A & B & T).
+        assert (Hch : Forall Wok ts) by (apply Forall_forall; intros t Ht; rewrite forallb_forall in Hall; apply (wok_all (wdepth t) t (le_n _) (Hall t Ht))).
+        destruct (children_ok ts Hs Hch) as (_ & _ & S3 & _).
+        apply in_text_app_l. apply in_text_item; [apply marker_ok_reflect; exact Hmk|exact S3|exact A|exact B|exact T].
+      * apply in_text_app_r. apply in_text_app_r. pose proof (IHn ltac:(lia) Hwn) as F. rewrite Forall_forall in F. apply F. exact Hx.
+Qed.
+
+(* clause 3 on the text: every paragraph line of the reflowed tree stands in the written text behind a container prefix of known width,
+   and together they fit the limit - or the line is that prefix and ONE word *)
+Theorem reflow_long_lines L t : wwf t = true ->
+  Forall (fun x => (exists p, len p = fst x /\ In (p ++ join SP (snd x)) (map bare (spell (to_f (reflow L t))))) /\
+                   (fst x + len (join SP (snd x)) <= L \/ exists w, snd x = [w])) (pw_lines 0 (reflow L t)).
+Proof.
+  intros H. pose proof (wwf_reflow (wdepth t) t L (le_n _) H) as W.
+  pose proof (pw_in_text_all (wdepth (reflow L t)) (reflow L t) (le_n _) W) as A. pose proof (reflow_fits L t H) as B.
+  apply Forall_forall. intros x Hx. rewrite Forall_forall in A, B. split; [apply A; exact Hx|apply B; exact Hx].
+Qed.
